@@ -369,7 +369,7 @@ def gen_returns(rng, mode="short"):
 
 def gen_pomdp_run(rng, tier, probe=False):
     cap = rng.choice([0, 1, 2, 5, "large", 3, 8])
-    kind = rng.choice(["table", "sfsc"])
+    kind = rng.choice(["table", "sfsc", "fsc", "fsc"])
     if kind == "sfsc" and cap == "large":
         cap = 8
     m = gen_mdp_for(rng, tier, cap, uniform_actions=True)
@@ -395,7 +395,22 @@ def gen_pomdp_run(rng, tier, probe=False):
             if others and rng.random() < .3:
                 d["items"].insert(rng.randint(0, len(d["items"])), [rng.choice(others), "0"])
     nN = rng.randint(1, 3)
-    if kind == "table":
+    if kind == "fsc":
+        # msdm FiniteStateController: one action per node, next node by pure table lookup (2-d: node x obs,
+        # 3-d: node x action x obs); for the model it is a table controller with point-mass action distributions
+        dim = rng.choice([2, 3])
+        acts = [rng.randrange(nA) for _ in range(nN)]
+        if dim == 2:
+            strat = [[rng.randrange(nN) for _ in range(nO)] for _ in range(nN)]
+            nxt = [[list(strat[k]) for _ in range(nA)] for k in range(nN)]
+        else:
+            strat = [[[rng.randrange(nN) for _ in range(nO)] for _ in range(nA)] for _ in range(nN)]
+            nxt = strat
+        ctrl = {"kind": "fsc", "dim": dim, "init": rng.randrange(nN), "actions": acts, "strategy": strat,
+                "acts_tuple": rng.random() < .3,
+                "act": [{"t": "det", "x": a} for a in acts], "next": nxt}
+        ag0 = None if rng.random() < .6 else rng.randrange(nN)
+    elif kind == "table":
         ctrl = {"kind": "table", "init": rng.randrange(nN),
                 "act": [gen_dist(rng, range(nA), range(nA), True) for _ in range(nN)],
                 "next": [[[rng.randrange(nN) for _ in range(nO)] for _ in range(nA)] for _ in range(nN)]}
@@ -415,9 +430,15 @@ def gen_pomdp_run(rng, tier, probe=False):
     capn = 40 if cap == "large" else cap
     c = {"kind": "pomdp_run", "mdp": m, "obs": obs, "nO": nO, "ctrl": ctrl, "s0": s0, "ag0": ag0, "cap": cap,
          "stream": gen_stream(rng, 3 * capn + 3, True), "gstream": gen_stream(rng, 4, True)}
+    plabels = {}
+    if kind == "fsc" or rng.random() < .5:
+        plabels["actions"] = gen_labels(rng, nA, rng.choice(LABEL_STYLES))
+    if kind != "sfsc" and rng.random() < .5:
+        plabels["obs"] = gen_labels(rng, nO, rng.choice(["str", "float", "int_perm"]))
+    c["plabels"] = plabels
     if rng.random() < .3:
         cap2 = rng.choice([0, 1, 2, 5])
-        if kind == "table":
+        if kind in ("table", "fsc"):
             ag2 = None if rng.random() < .5 else rng.randrange(nN)
         else:
             ag2 = None if rng.random() < .5 else vec(nN)
@@ -477,7 +498,7 @@ def term_for(case, res):
         m, c = case["mdp"], case["ctrl"]
         obs = coqlist(coqlist(dist_lit(case["obs"]["%d,%d" % (a, ns)]) for ns in range(m["n"])) for a in range(m["nA"]))
         flag = "true" if not res["global"]["requests"] else "false"
-        if c["kind"] == "table":
+        if c["kind"] in ("table", "fsc"):
             ctl = "%s %s %s" % (nat(c["init"]), coqlist(dist_lit(d) for d in c["act"]),
                                 coqlist(coqlist(natlist(r) for r in rows) for rows in c["next"]))
             ag0 = optnat(case["ag0"])
@@ -549,13 +570,13 @@ def pomdp_clauses(case, steps, final, cap_int):
     def agq(ag):
         return ag if isinstance(ag, int) else [vlib.frac(x) for x in ag]
     ag_init = case["ag0"] if case["ag0"] is not None else c["init"]
-    if c["kind"] == "table":
+    if c["kind"] in ("table", "fsc"):
         if ags[0] != ag_init:
             return "initial agent state is not the policy's"
     elif not all(close(x, F(y)) for x, y in zip(agq(ags[0]), ag_init)):
         return "initial agent state is not the policy's"
     for t, (s, ag, a, ns, r, o, nag) in enumerate(steps):
-        if c["kind"] == "table":
+        if c["kind"] in ("table", "fsc"):
             w = dweight(c["act"][ag], a)
             exp_nag = c["next"][ag][a][o]
             ok_nag = (nag == exp_nag) and ags[t + 1] == nag
@@ -712,6 +733,7 @@ def run(ctx):
     long_returns = []
     skipped = {}
     int_gamma_reported = False
+    fsc_defects = {}
     n_int_gamma = 0
     for i, (case, res) in enumerate(zip(cases, impl)):
         if "error" in res:
@@ -735,6 +757,27 @@ def run(ctx):
             continue
         if "skipped" in res:
             skipped[res["skipped"]] = skipped.get(res["skipped"], 0) + 1
+            continue
+        if "fsc_construct_error" in res or "fsc_action_dist_wrong" in res:
+            key = "fsc_construct_error" if "fsc_construct_error" in res else "fsc_action_dist_wrong"
+            fsc_defects[key] = fsc_defects.get(key, 0) + 1
+            if fsc_defects[key] == 1:
+                if key == "fsc_construct_error":
+                    ctx.violation("C14:FiniteStateController:constructor-rejects-valid-strategy", {
+                        "case": public(case), "impl": res,
+                        "what": "FiniteStateController(pomdp, action_strategy, observation_strategy) raises AssertionError for a "
+                                "well-shaped %d-d observation strategy (nodes x %sobservations): no deterministic controller "
+                                "policy can be built, so no roll-out of one exists" % (case["ctrl"]["dim"], "actions x " if case["ctrl"]["dim"] == 3 else ""),
+                        "where": "msdm/core/pomdp/finitestatecontroller.py FiniteStateController.__init__ shape assertions",
+                        "repro": "see /verif/corpus/C14/deterministic_fsc_demo.py"}, found=True)
+                else:
+                    ctx.violation("C14:FiniteStateController:action_dist-not-the-strategy-action", {
+                        "case": public(case), "impl": res,
+                        "what": "FiniteStateController.action_dist(node) is not the point mass on action_strategy[node] (it yields the "
+                                "action's index in pomdp.action_list): a roll-out of the controller uses an action the policy's own "
+                                "strategy does not prescribe / feeds a non-action to the POMDP",
+                        "where": "msdm/core/pomdp/finitestatecontroller.py FiniteStateController.action_dist",
+                        "repro": "see /verif/corpus/C14/deterministic_fsc_demo.py"}, found=True)
             continue
         if case["kind"] == "returns" and case.get("long"):
             long_returns.append(i)
@@ -928,7 +971,15 @@ def run(ctx):
             if clause or ms != steps or mf != final or mdraws != res["rng"]["draws"] or mgdraws != res["global"]["draws"] \
                     or res["rng"]["draws_outside_requests"]:
                 mismatch(case, res, "trajectory", v, clause)
-            feats["table_ctrl" if case["ctrl"]["kind"] == "table" else "sfsc"] += 1
+            ck = case["ctrl"]["kind"]
+            feats["table_ctrl" if ck == "table" else ck] = feats.get("table_ctrl" if ck == "table" else ck, 0) + 1
+            if ck == "fsc":
+                f = "fsc_%dd" % case["ctrl"]["dim"]
+                feats[f] = feats.get(f, 0) + 1
+            pl = case.get("plabels") or {}
+            for side in ("actions", "obs"):
+                if pl.get(side):
+                    feats["pomdp_labels_" + side] = feats.get("pomdp_labels_" + side, 0) + 1
             feats["steps_total"] += len(steps)
             feats["draws_total"] += res["rng"]["draws"]
             feats["nontrivial"] += bool(steps)
@@ -978,6 +1029,8 @@ def run(ctx):
                                              and c.get("deterministic"))
     counts["returns_long"] = n_long
     feats["int_discount_rate_raises"] = n_int_gamma
+    feats["fsc_construct_error"] = fsc_defects.get("fsc_construct_error", 0)
+    feats["fsc_action_dist_wrong"] = fsc_defects.get("fsc_action_dist_wrong", 0)
     feats["mdp_run_s0_is_0_given"] = sum(1 for c in cases if c["kind"] == "mdp_run" and c["s0"] == 0)
 
     ctx.coverage.update({
@@ -988,8 +1041,11 @@ def run(ctx):
                 "k/{3,7,10,12} grids, zero entries) and TabularPolicy rows; start given (any state, also absorbing) or sampled; caps "
                 "{0,1,2,3,5,8,large=2^30,default}; streams of odd/2^21 values plus exact k/8 ties (dyadic cases) and extremes; "
                 "evaluate_on with n in {1,2,3,5,8}, one third deterministic policy on deterministic MDP; POMDPs = such MDPs with all "
-                "actions everywhere + observation distributions, policies = table controller (harness subclass of POMDPPolicy) and "
-                "msdm StochasticFiniteStateController; calc_returns on reward lists of length 1..12 with gamma in {1/2..19/20, 1, 1/10, 0, 2^-10} (model + exact oracle), and on long lists "
+                "actions everywhere + observation distributions, policies = table controller (harness subclass of POMDPPolicy), "
+                "msdm StochasticFiniteStateController and msdm FiniteStateController (deterministic; 2-d and 3-d observation "
+                "strategies indexed by observation-list position, action strategy as list/tuple of action labels incl. falsy ones, "
+                "initial_state given, initial_agentstate given or not); POMDP action/observation labels str/tuple/float/int/bool in "
+                "non-sorted order; calc_returns on reward lists of length 1..12 with gamma in {1/2..19/20, 1, 1/10, 0, 2^-10} (model + exact oracle), and on long lists "
                 "(length 1100..1500 with gamma 1/2, length 110..200 with gamma 2^-10 / 0 / 1/10: gamma^t underflows) compared in Python only "
                 "against the exact rational backward recursion at 1e-12 relative to max(1,|x|) (not through Coq: exact rationals of that size "
                 "are too slow in vm_compute); evaluate_on also with discount 0, 1, 2^-10, 1-2^-20 (also 0/1 as int); audit classes: object reuse (same policy "
